@@ -3,7 +3,9 @@
    A<e> add, P<i>,<e> put_idx, I<i>,<e> insert_idx, D<i>,<c> del_idx, H<n> shrink, S sort,
    G<i> get_idx, B<e> bsearch, M<k>,<id0> k appends of id0, id0+1, ... (stops at the first
    refusal); S / R sort by the ascending / descending comparator, B<e> / C<e> bsearch by the
-   ascending / descending comparator, V<i>,<v> in-place change of the value of element i (the
+   ascending / descending comparator (key of member shape), K<k> / Q<k> bsearch with a bare-int
+   key and the two-sorted key-vs-member comparator (prints f<value of the member found> or nf),
+   V<i>,<v> in-place change of the value of element i (the
    array is not called).  A lower-case op letter is the same operation (in the implementation:
    through array_list_* on json_object_get_array(arr)).  <e> is a decimal id or n (NULL).
    Sequences (contents, released ids) are run-length encoded: "e", "e*k" (k copies, k >= 3),
@@ -42,7 +44,7 @@ let seq_str (l : z option list) =
   end
 let ids_str l = seq_str (List.rev (List.rev_map (fun x -> Some x) l))
 
-type op = Step of alop | Get of z | Bs of cmpsel * elt | Many of int * z
+type op = Step of alop | Get of z | Bs of cmpsel * elt | Ks of cmpsel * z | Many of int * z
 
 let parse_op s =
   let body = String.sub s 1 (String.length s - 1) in
@@ -59,6 +61,8 @@ let parse_op s =
   | 'G' -> Get (z_of_string body)
   | 'B' -> Bs (Asc, parse_elt body)
   | 'C' -> Bs (Desc, parse_elt body)
+  | 'K' -> Ks (Asc, z_of_string body)
+  | 'Q' -> Ks (Desc, z_of_string body)
   | 'M' -> let (k, i) = two () in Many (int_of_string k, z_of_string i)
   | _ -> failwith "al op"
 
@@ -106,6 +110,11 @@ let run line =
              (match al_get !a i with
               | GOk e -> out := obs !a (elt_str e) [] :: !out
               | GUB -> out := "UB" :: !out; ub := true; raise Exit)
+           | Ks (c, k) ->
+             (match al_bsearch_km (cmp_km c) !a k with
+              | Some (Some x) -> out := obs !a ("f" ^ elt_str x) [] :: !out
+              | Some None -> out := obs !a "nf" [] :: !out
+              | None -> out := "UB" :: !out; ub := true; raise Exit)
            | Bs (c, k) ->
              (match al_bsearch c !a k with
               | Some b -> out := obs !a (if b then "f" else "nf") [] :: !out
